@@ -1,5 +1,5 @@
 CONSTANTS N = 4  StartRule = "next"  MaxTr = 2
 SPECIFICATION Spec
-INVARIANT NobodyWaitsAcrossATransition
+INVARIANT FairWindow FairBound
 CONSTRAINT Bounded
 CHECK_DEADLOCK FALSE
